@@ -329,11 +329,27 @@ def marker_to_box(element, state, parent_style, style_for, get_image_from_uri,
     if style['display'] == ('none',):
         return
 
+    if parent_style['list_style_position'] == 'outside':
+        marker_box = boxes.BlockBox.anonymous_from(box, children)
+        # We can safely edit everything that can't be changed by user style
+        # See https://drafts.csswg.org/css-pseudo-4/#marker-pseudo
+        marker_box.style['position'] = 'absolute'
+        if parent_style['direction'] == 'ltr':
+            translate_x = properties.Dimension(-100, '%')
+        else:
+            translate_x = properties.Dimension(100, '%')
+        translate_y = properties.ZERO_PIXELS
+        marker_box.style['transform'] = (
+            ('translate', (translate_x, translate_y)),)
+    else:
+        marker_box = boxes.InlineBox.anonymous_from(box, children)
+
     image_type, image = style['list_style_image']
 
     if style['content'] not in ('normal', 'inhibit'):
+        # The content is parsed again in the box that is in the tree
         children.extend(content_to_boxes(
-            style, box, quote_depth, counter_values, get_image_from_uri,
+            style, marker_box, quote_depth, counter_values, get_image_from_uri,
             target_collector, counter_style))
 
     else:
@@ -357,20 +373,7 @@ def marker_to_box(element, state, parent_style, style_for, get_image_from_uri,
     if not children:
         return
 
-    if parent_style['list_style_position'] == 'outside':
-        marker_box = boxes.BlockBox.anonymous_from(box, children)
-        # We can safely edit everything that can't be changed by user style
-        # See https://drafts.csswg.org/css-pseudo-4/#marker-pseudo
-        marker_box.style['position'] = 'absolute'
-        if parent_style['direction'] == 'ltr':
-            translate_x = properties.Dimension(-100, '%')
-        else:
-            translate_x = properties.Dimension(100, '%')
-        translate_y = properties.ZERO_PIXELS
-        marker_box.style['transform'] = (
-            ('translate', (translate_x, translate_y)),)
-    else:
-        marker_box = boxes.InlineBox.anonymous_from(box, children)
+    marker_box.children = tuple(children)
     yield marker_box
 
 
